@@ -3,7 +3,8 @@ from ..core import Script, Rng
 from ..stage import LineStage, replay_line
 from . import hex_gen
 
-ARTEFACTS = []
+ARTEFACTS = ["G10-hash"]
+EXTRA_PROPS = [("B3.Props.C14T", "B3/Props/C14T.lean")]   # theorems about the code translated from the sources
 PROPS_MODULE = "B3.Hex.Props"
 PROPS_PATH = "B3/Hex/Props.lean"
 RULE = ("E ops on the real Hash API: every byte value at every position of a hash (to_hex/Display/array round trips), every byte value "
